@@ -1,4 +1,5 @@
 import TinyFlux.Mirror.Ops
+import TinyFlux.Mirror.Database
 /-!
 # C02 over the translated source: what `Index.remove` / `Index.update` of index.py do to the index after a removal
 
@@ -25,5 +26,40 @@ theorem translated_remove_range (g : GSelf) (r : List Nat) (hg : GWF g) (hgt : g
 
 /-- removing everything resets the index (`_reset_database` → `Index._reset`) -/
 theorem translated_reset (g : GSelf) : IndexImpl._reset g = .ok (IndexImpl.__init__ true) := reset_ok g
+
+/-- `TinyFlux._remove_helper` of database.py, translated statement by statement on every run (`Generated/DatabaseImpl.lean`:
+    index path with / without measurement filter, scan path, the three exits `nothing removed` / `nothing kept` /
+    `swap and renumber`), over the *translated* index and list-level storage: it returns the count the Model's `removeHelper`
+    returns and a state that reads as the Model's result — which `remove_refines` (Props/C02.lean) proves to be the Spec's
+    removal. What is not translated enters through `modelExt`: `query(point)`, `index_is_exact`, `Index.search`. -/
+theorem translated_remove_helper (norm : Point → Point) (g : DSelf) (q : Query) (m : Option String)
+    (hg : GWF g._index) (htemp : g._storage._temp = [])
+    (hlen : g._auto_index = true → g._index._num_items = g._storage._items.length) :
+    match (absDB norm g).removeHelper q m with
+    | .ok (s', n) => ∃ g', DatabaseImpl._remove_helper modelExt g q m = .ok (g', n) ∧ StateEq (absDB norm g') s'
+        ∧ GWF g'._index
+    | .error _ => ∃ e', DatabaseImpl._remove_helper modelExt g q m = .error e' :=
+  remove_helper_ok norm g q m hg htemp hlen
+
+/-- `TinyFlux._reset_database` as translated: the Model's `resetDatabase`, exactly -/
+theorem translated_reset_database (norm : Point → Point) (g : DSelf) :
+    ∃ g', DatabaseImpl._reset_database g = .ok g' ∧ absDB norm g' = (absDB norm g).resetDatabase
+      ∧ g'._storage._temp = g._storage._temp ∧ GWF g'._index :=
+  reset_database_ok norm g
+
+/-- non-vacuity: a concrete translated database state (three rows, the index the translated `build` gives for them) meets
+    the hypotheses of `translated_remove_helper` -/
+example : ∃ idx, IndexImpl.build (IndexImpl.__init__ true)
+      [{ time := 5, meas := "a", tags := [("k", some "v")], fields := [] },
+       { time := 3, meas := "b", tags := [("k", some "w")], fields := [("f", none)] },
+       { time := 5, meas := "a", tags := [], fields := [] }] = .ok idx
+    ∧ GWF idx ∧ idx._num_items = 3 := by
+  obtain ⟨g', h1, h2, h3⟩ := build_ok (IndexImpl.__init__ true)
+      [{ time := 5, meas := "a", tags := [("k", some "v")], fields := [] },
+       { time := 3, meas := "b", tags := [("k", some "w")], fields := [("f", none)] },
+       { time := 5, meas := "a", tags := [], fields := [] }]
+  refine ⟨g', h1, h2, ?_⟩
+  have := h3.num
+  simpa [Mirror.abs, Index.build, Index.buildFrom] using this
 
 end TinyFlux.Props.C02
